@@ -295,6 +295,7 @@ class Interp:
         self.discr = dict(DISCR)
         if enum_discr:
             self.discr.update(enum_discr)
+        self.frame_fn = {}
         self.stats = {'calls': 0, 'stmts': 0, 'forks': 0, 'model_calls': 0, 'functions': set()}
         self.solver = z3.Solver()
         self.solver.set('timeout', 2000)
@@ -310,12 +311,19 @@ class Interp:
             return (None, None)
         l = lines[line - 1]
         seg = l[col - 1:]
-        if l.lstrip().startswith('#[derive') or 'derive(' in l[:col]:
+        in_derive = l.lstrip().startswith('#[derive') or 'derive(' in l[:col]
+        if not in_derive and not seg.lstrip().startswith('impl'):
+            # multi-line #[derive( ... )] attribute
+            for back in range(1, 4):
+                if line - 1 - back >= 0 and '#[derive(' in lines[line - 1 - back]:
+                    in_derive = True
+                    break
+        if in_derive:
             m = re.match(r'(\w+)', seg)
             trait = m.group(1) if m else None
             # the item the derive applies to
-            for k in range(line, min(line + 12, len(lines))):
-                mm = re.search(r'\b(?:struct|enum)\s+(\w+)', lines[k])
+            for k in range(line - 1, min(line + 12, len(lines))):
+                mm = re.search(r'^\s*(?:pub(?:\([^)]*\))?\s+)?(?:struct|enum)\s+(\w+)', lines[k])
                 if mm:
                     return (mm.group(1), trait)
             return (None, trait)
@@ -674,6 +682,16 @@ class Interp:
         if k in ('copy', 'move'):
             return self.read_place(st, fid, op[1])
         if k == 'const':
+            pm = re.search(r'::promoted\[(\d+)\]$', op[1].strip())
+            if pm:
+                fname = self.frame_fn.get(fid)
+                key = '%s::promoted[%s]' % (fname, pm.group(1))
+                if key not in self.funcs:
+                    raise Unsupported('promoted constant %s not found' % key)
+                outs = self.exec_fn(st, key, [], {})
+                if len(outs) != 1:
+                    raise Unsupported('promoted constant with %d paths' % len(outs))
+                return outs[0][1]
             return self.eval_const(op[1], st)
         raise Unsupported('operand %r' % (op,))
 
@@ -866,6 +884,7 @@ class Interp:
         if len(args) != len(f.params):
             raise Unsupported('arity mismatch calling %s: %d args for %d params' % (name, len(args), len(f.params)))
         fid = next(_frame_ids)
+        self.frame_fn[fid] = name
         st0.mem[fid] = {}
         for (n, _ty), a in zip(f.params, args):
             st0.mem[fid][n] = a
